@@ -3,6 +3,10 @@ import AdfObdd.CliFaithful
 import AdfObdd.CliModesProofs
 import AdfObdd.CliWorldProofs
 import AdfObdd.CliCounter
+import AdfObdd.CliHalt
+import AdfObdd.HybridCli
+import AdfObdd.NatLexOrder
+import AdfObdd.Props.C03
 /-! # C15 — CLI output is faithful in every library mode
 
 Model: `Cli.run` (`CliModel.lean`) — the three arms of `App::run`, the per-mode wiring table
@@ -392,7 +396,277 @@ theorem library_arms_panic_on_special_labels {T : Type} (W : CliM.World T) (fuel
     (hbad : st.namelist.all CliM.bioNameOK = false) : CliM.runText W fuel i t = CliM.rejected :=
   CliMP.bio_arms_reject_special_label W fuel i t st hp hm hbad
 
+/-! ## review 2: the hybrid arm's pipeline, the fuel hypothesis, the `--an` order, the exceptions
+
+### the hybrid arm of `runText` runs the pipeline of C01–C03 / C09
+
+`CliM.runHybrid` calls `CliM.hybridStep` / `CliM.bridgeAll` (CliModes.lean), the hybrid theorems of
+C01 (`hybrid_grounded_is_lfp`), C02 (`hybrid_complete_exact`), C03 (`hybrid_stable_exact`, …,
+`native_rewriting_on_hybrid`) and C09 (`hybrid_import_function`) are stated for `Bio.hybridStep`
+(HybridModel.lean). They are the same function in every world that satisfies the assumptions: -/
+
+/-- the hybrid arm of the text-level model builds its native object with the function the theorems of
+C01–C03 and C09 are about (`hybrid_step()` = `Bio.hybridStep … true`) -/
+theorem hybrid_arm_runs_the_verified_bridge {T : Type} (L : Bio.Lib T) (n : Nat) (W : Bio.Lawful L n)
+    (dump : T → List Node) (hd : Bio.DumpSpec W dump) (ac : List T) (hv : ∀ a ∈ ac, W.Valid a)
+    (hn : ac.length ≤ n) :
+    CliM.hybridStep L dump ac = Bio.hybridStep L dump true ac := Bio.hybridStep_agree W hd ac hv hn
+
+/-- … and its `--stmrew` / `--stmrew2` section is `C03.native_rewriting_on_hybrid`'s function on that
+object: candidates from the un-grounded library object, test on the pre-grounded native store -/
+theorem hybrid_arm_rewriting_section {T : Type} (L : Bio.Lib T) (n : Nat) (W : Bio.Lawful L n)
+    (dump : T → List Node) (hd : Bio.DumpSpec W dump) (fuel : Nat) (heu : SM.Heu) (rw : Option T)
+    (ac : List T) (hv : ∀ a ∈ ac, W.Valid a) (hn : ac.length = n) (hg : Bio.GoodRewrite W ac rw) :
+    let h := CliM.hybridStep L dump ac
+    let out := (CliM.secHybrid fuel heu (Bio.stableModelCandidates L rw ac) n h.2 .stmrew h.1).2.map
+      (fun v => v.map storeIsConst)
+    out.Nodup ∧ ∀ v : I3, v ∈ out ↔ (v.length = n ∧ StableExact.StableI (ac.map W.den) v) := by
+  intro h out
+  have e : h = Bio.hybridStep L dump true ac := Bio.hybridStep_agree W hd ac hv (Nat.le_of_eq hn)
+  have := C03.native_rewriting_on_hybrid L n W dump hd true rw ac hv hn hg
+  simp only at this
+  rw [← e] at this
+  exact ⟨this.2.1, this.2.2.1⟩
+
+/-! ### the fuel hypothesis `haltedParsed` (review 1 item 7, review 2 item 4)
+
+It is (a) MONOTONE in the bound and a halted run does not depend on the bound (`fuel_monotone`), so
+"holds from some bound on" means: there is a threshold; (b) satisfiable for EVERY invocation on a
+well-formed framework in EVERY arm, in particular the hybrid arm with `--twoval` / `--stmng`
+(`halted_from_some_bound_on`; before: naive arm only); hence (c) `cli_text_faithful_every_large_bound`
+has no fuel hypothesis. RELATION TO THE DRIVER'S 1 000 000: none is proved - C05's termination
+argument is a well-founded measure without a number. By (a), `haltedParsed W 1000000 i st` holds iff the
+threshold of the invocation is ≤ 10^6; for the runs of the correspondence check this is established by
+EVALUATION only (the driver computes `runText … 1000000 …`; a search that hit the bound would print a
+prefix and be reported as a difference from the binary), not by the kernel. -/
+
+open CliM CliMP ParserM FromParser in
+theorem fuel_monotone {T : Type} (W : World T) (i : Inv) (st : PState) {fuel fuel' : Nat}
+    (h : haltedParsed W fuel i st = true) (hf : fuel ≤ fuel') :
+    haltedParsed W fuel' i st = true ∧ runParsed W fuel' i st = runParsed W fuel i st :=
+  haltedParsed_mono W i st h hf
+
+open CliM CliMP ParserM FromParser in
+/-- every arm (naive, biodivine, HYBRID), every flag set: the fuel hypothesis holds from some bound on -/
+theorem halted_from_some_bound_on {T : Type} (W : World T) (ok : WorldOK W) (i : Inv)
+    (fs : List Fact) (hwf : WellFormedAdf fs) (hn : (namesOf fs).length ≤ VBOT)
+    (hnames : i.mode = .hybrid → (namesOf fs).all bioNameOK = true)
+    (hone : i.mode = .hybrid → i.flags.stmrew = true → ((acsOf fs).map (·.1)).Nodup)
+    (hdump : i.mode = .hybrid → DumpOKW W ok) :
+    ∃ F0, ∀ fuel, F0 ≤ fuel →
+      haltedParsed W fuel i (sortState W.anSort i.sort (PState.ofFacts fs)) = true :=
+  halted_text_eventually W ok i fs hwf hn hnames hone hdump
+
+open CliM CliMP ParserM FromParser in
+/-- **`cli_text_faithful` without the fuel hypothesis**: there is a bound from which on the run is
+faithful - and (monotonicity) from which on exit status and stdout do not change any more -/
+theorem cli_text_faithful_every_large_bound {T : Type} (W : World T) (ok : WorldOK W) (i : Inv) (t : List Char)
+    (fs : List Fact) (hd : DerFile fs t) (hne : fs ≠ []) (hwf : WellFormedAdf fs)
+    (hn : (namesOf fs).length ≤ VBOT)
+    (hnames : i.mode ≠ .naive → (namesOf fs).all bioNameOK = true)
+    (hone : i.mode ≠ .naive → i.flags.stmrew = true → ((acsOf fs).map (·.1)).Nodup)
+    (hdump : i.mode = .hybrid → DumpOKW W ok) :
+    ∃ F0, ∀ fuel, F0 ≤ fuel →
+      runText W fuel i t = runText W F0 i t ∧
+      ∃ blocks : List Block,
+        runText W fuel i t =
+          ⟨0, blocks.flatMap fun b => b.2.map (render (sortedNames W.anSort i.sort (namesOf fs)))⟩ ∧
+        blocks.map (·.1) = Cli.sections i.mode i.flags ∧
+        (∀ blk ∈ blocks, (blk.2.map (fun v => v.map storeIsConst)).Perm
+          (Cli.specSection (sortedNames W.anSort i.sort (namesOf fs)).length
+            (tablesD (sortedNames W.anSort i.sort (namesOf fs)).length
+              (SortModel.condFnsOn (sortedNames W.anSort i.sort (namesOf fs)) (condOf fs))) blk.1)) := by
+  obtain ⟨F0, hF⟩ := halted_text_eventually W ok i fs hwf hn
+    (fun hm => hnames (by rw [hm]; simp)) (fun hm => hone (by rw [hm]; simp)) hdump
+  refine ⟨F0, fun fuel hf => ⟨?_, ?_⟩⟩
+  · exact runText_fuel_irrelevant W i t _ (parsed_of_der W i t fs hd hne) (hF F0 (Nat.le_refl _)) hf
+  · obtain ⟨blocks, h1, h2, h3, _⟩ := cli_text_faithful W ok fuel i t fs hd hne hwf hn hnames hone hdump (hF fuel hf)
+    exact ⟨blocks, h1, h2, h3⟩
+
+open CliM CliMP ParserM FromParser in
+/-- non-vacuity, HYBRID arm with both search flags on the driver's world (kernel-checked hypotheses):
+`s(b).s(a).ac(b,neg(a)).ac(a,neg(b)).` with `--twoval --stmng --stm`: some bound satisfies the fuel
+hypothesis, and from it on the run exits with status 0 and prints the three blocks -/
+example : ∃ F0, ∀ fuel, F0 ≤ fuel → ∃ blocks : List Block,
+    runText drvWorld fuel ⟨.hybrid, { twoval := true, stm := true, stmng := true }, .none, .simple⟩ exText =
+      ⟨0, blocks.flatMap fun b => b.2.map (render [['b'], ['a']])⟩ ∧
+    blocks.map (·.1) = [.twoval, .stm, .stmng] := by
+  obtain ⟨F0, h⟩ := cli_text_faithful_every_large_bound drvWorld drvWorldOK
+    ⟨.hybrid, { twoval := true, stm := true, stmng := true }, .none, .simple⟩ exText exFacts
+    exText_der (by decide) (by decide) (by simp [VBOT]; decide) (fun _ => by decide) (fun _ _ => by decide)
+    (fun _ => drvWorld_dump)
+  refine ⟨F0, fun fuel hf => ?_⟩
+  obtain ⟨_, blocks, h1, h2, _⟩ := h fuel hf
+  exact ⟨blocks, h1, by rw [h2]; decide⟩
+
+open CliM CliMP ParserM FromParser in
+/-- `three_modes_print_same_sets` with every hypothesis CONDITIONAL on the arm that needs it (review 2):
+the label condition only if one of the two invocations uses the library, "one condition per statement"
+only if one of them runs `--stmrew` on the library, the dump law only if one of them is the hybrid arm
+(so naive vs naive needs none of them) -/
+theorem three_modes_print_same_sets_conditional {T : Type} (W : World T) (ok : WorldOK W) (fuel fuel' : Nat)
+    (i i' : Inv) {st : PState} {names : List Label} {acs : List (Label × Fml)}
+    (h : Pres st names acs) (hwf : WfOn names acs) (hn : names.length ≤ VBOT)
+    (hnames : i.mode ≠ .naive ∨ i'.mode ≠ .naive → names.all bioNameOK = true)
+    (hone : (i.mode ≠ .naive ∧ i.flags.stmrew = true) ∨ (i'.mode ≠ .naive ∧ i'.flags.stmrew = true) →
+      (acs.map (·.1)).Nodup)
+    (hdump : i.mode = .hybrid ∨ i'.mode = .hybrid → DumpOKW W ok)
+    (hh : haltedParsed W fuel i st = true) (hh' : haltedParsed W fuel' i' st = true)
+    (blocks blocks' : List Block) (hb : runParsed W fuel i st = some blocks)
+    (hb' : runParsed W fuel' i' st = some blocks')
+    (blk blk' : Block) (hm : blk ∈ blocks) (hm' : blk' ∈ blocks') (hs : blk.1 = blk'.1) :
+    (blk.2.map (fun v => v.map storeIsConst)).Perm (blk'.2.map (fun v => v.map storeIsConst)) := by
+  obtain ⟨b1, e1, _, f1⟩ := runParsed_faithful W ok fuel i h hwf hn (fun x => hnames (.inl x))
+    (fun x y => hone (.inl ⟨x, y⟩)) (fun x => hdump (.inl x)) hh
+  obtain ⟨b2, e2, _, f2⟩ := runParsed_faithful W ok fuel' i' h hwf hn (fun x => hnames (.inr x))
+    (fun x y => hone (.inr ⟨x, y⟩)) (fun x => hdump (.inr x)) hh'
+  rw [hb] at e1; rw [hb'] at e2
+  cases e1; cases e2
+  have p1 := f1 blk hm
+  have p2 := f2 blk' hm'
+  unfold CliF.Faithful at p1 p2
+  rw [hs] at p1
+  exact p1.trans p2.symm
+
+open CliM CliMP ParserM FromParser in
+/-- an instance (driver's world): the hybrid arm and the biodivine arm with `--stm` on the mutual attack
+both produce a `stm` block, and the two blocks are permutations of one another -/
+example : ∃ blk blk' : Block,
+    (∃ bs, runParsed drvWorld 0 ⟨.hybrid, { stm := true }, .none, .simple⟩ (PState.ofFacts exFacts) = some bs ∧ blk ∈ bs) ∧
+    (∃ bs, runParsed drvWorld 0 ⟨.biodivine, { stm := true }, .none, .simple⟩ (PState.ofFacts exFacts) = some bs ∧ blk' ∈ bs) ∧
+    blk.1 = .stm ∧ blk'.1 = .stm ∧
+    (blk.2.map (fun v => v.map storeIsConst)).Perm (blk'.2.map (fun v => v.map storeIsConst)) := by
+  have pres := pres_ofFacts exFacts
+  have hwf : WfOn (namesOf exFacts) (acsOf exFacts) := (show WellFormedAdf exFacts by decide)
+  have hn : (namesOf exFacts).length ≤ VBOT := by simp [VBOT]; decide
+  obtain ⟨b1, e1, s1, _⟩ := runParsed_faithful drvWorld drvWorldOK 0 ⟨.hybrid, { stm := true }, .none, .simple⟩
+    pres hwf hn (fun _ => by decide) (fun _ h => by cases h) (fun _ => drvWorld_dump)
+    (halted_of_no_search _ _ _ _ (Or.inr ⟨rfl, rfl⟩))
+  obtain ⟨b2, e2, s2, _⟩ := runParsed_faithful drvWorld drvWorldOK 0 ⟨.biodivine, { stm := true }, .none, .simple⟩
+    pres hwf hn (fun _ => by decide) (fun _ h => by cases h) (fun h => by cases h)
+    (halted_of_no_search _ _ _ _ (Or.inl rfl))
+  have hs1 : b1.map (·.1) = [.stm] := by rw [s1]; decide
+  have hs2 : b2.map (·.1) = [.stm] := by rw [s2]; decide
+  match b1, hs1, b2, hs2 with
+  | [x], hs1, [y], hs2 =>
+    have hx : x.1 = .stm := by simpa using hs1
+    have hy : y.1 = .stm := by simpa using hs2
+    refine ⟨x, y, ⟨[x], e1, by simp⟩, ⟨[y], e2, by simp⟩, hx, hy, ?_⟩
+    exact three_modes_print_same_sets_conditional drvWorld drvWorldOK 0 0 _ _ pres hwf hn (fun _ => by decide)
+      (fun h => by rcases h with ⟨_, h⟩ | ⟨_, h⟩ <;> cases h) (fun _ => drvWorld_dump)
+      (halted_of_no_search _ _ _ _ (Or.inr ⟨rfl, rfl⟩)) (halted_of_no_search _ _ _ _ (Or.inl rfl))
+      [x] [y] e1 e2 x y (by simp) (by simp) (hx.trans hy.symm)
+
+/-! ### the second world the driver runs: the own store as the BDD library (`cliwide`)
+
+Above `Drv.ttLimit` statements the biodivine and hybrid arms of `clirun` are `CliM.runText` on
+`CliM.storeWorld` (library `Bio.storeLib`: the project's verified ROBDD store; dump `Bio.storeDump`:
+reduced, shared node tables). It satisfies all assumptions, so the theorems hold for it as well (except
+for requests with `--stmrew2`, which still fall back to `Cli.run`, see Drv/Cli.lean). -/
+
+open CliM CliMP ParserM FromParser in
+theorem store_world_faithful (fuel : Nat) (i : Inv) (t : List Char)
+    (fs : List Fact) (hd : DerFile fs t) (hne : fs ≠ []) (hwf : WellFormedAdf fs)
+    (hn : (namesOf fs).length ≤ VBOT)
+    (hnames : i.mode ≠ .naive → (namesOf fs).all bioNameOK = true)
+    (hone : i.mode ≠ .naive → i.flags.stmrew = true → ((acsOf fs).map (·.1)).Nodup)
+    (hh : haltedParsed storeWorld fuel i (sortState storeWorld.anSort i.sort (PState.ofFacts fs)) = true) :
+    ∃ blocks : List Block,
+      runText storeWorld fuel i t =
+        ⟨0, blocks.flatMap fun b => b.2.map (render (sortedNames storeWorld.anSort i.sort (namesOf fs)))⟩ ∧
+      blocks.map (·.1) = Cli.sections i.mode i.flags ∧
+      (∀ blk ∈ blocks, (blk.2.map (fun v => v.map storeIsConst)).Perm
+        (Cli.specSection (sortedNames storeWorld.anSort i.sort (namesOf fs)).length
+          (tablesD (sortedNames storeWorld.anSort i.sort (namesOf fs)).length
+            (SortModel.condFnsOn (sortedNames storeWorld.anSort i.sort (namesOf fs)) (condOf fs))) blk.1)) ∧
+      (∀ blk ∈ blocks, ∀ v ∈ blk.2, v.length = (sortedNames storeWorld.anSort i.sort (namesOf fs)).length) :=
+  cli_text_faithful storeWorld storeWorldOK fuel i t fs hd hne hwf hn hnames hone (fun _ => storeWorld_dump) hh
+
+-- evaluation: the store world prints what the truth-table world prints - the `--stmrew` block in the order of
+-- ITS `sat_valuations` (the diagram walk, variable 0 first), the truth-table library in ascending valuation order
+def exNoRew : Cli.Flags := { exAll with stmrew := false }
+#guard (CliM.runText CliM.storeWorld 1000 ⟨.hybrid, exNoRew, .an, .simple⟩ CliMP.exText) ==
+  (CliM.runText CliM.drvWorld 1000 ⟨.hybrid, exNoRew, .an, .simple⟩ CliMP.exText)
+#guard (CliM.runText CliM.storeWorld 1000 ⟨.hybrid, { stmrew := true }, .an, .simple⟩ CliMP.exText).stdout.map String.ofList ==
+  ["F(a) T(b) ", "T(a) F(b) "]
+#guard (CliM.runText CliM.drvWorld 1000 ⟨.hybrid, { stmrew := true }, .an, .simple⟩ CliMP.exText).stdout.map String.ofList ==
+  ["T(a) F(b) ", "F(a) T(b) "]
+#guard (CliM.runText CliM.storeWorld 1000 ⟨.biodivine, exAll, .an, .simple⟩ CliMP.exText).stdout.map String.ofList ==
+  ["u(a) u(b) ", "u(a) u(b) ", "T(a) F(b) ", "F(a) T(b) ", "F(a) T(b) ", "T(a) F(b) ", "F(a) T(b) ", "T(a) F(b) "]
+
+/-! ### the order `--an` prints in
+
+`CliM.NatLex.le` - the model of `natural_lexical_cmp` - is a total, transitive, antisymmetric comparison
+on ALL labels (`NatLexOrder.lean`: it is the lexicographic order on a sort key, ties by bytes), so the
+insertion sort of the model returns THE sorted permutation of a duplicate-free name list, which is what
+any correct comparison sort (`string_sort_unstable`) returns. LIMIT OF THE TIE TO THE BINARY: outside
+U+0000–U+00FF the model's transliteration table (`translit`, `isAlnumU`) does not follow crate
+`any_ascii` (which transliterates every alphanumeric code point, `ā` ↦ `a`, `Ω` ↦ `O`): on
+`s("ā").s(b).s("Ω").s(z)` with `--an` the binary prints the order `ā b Ω z`, the model `Ω b z ā` (review 2).
+The agreement of `--an` with the binary is therefore claimed for Latin-1 labels only and was run on the
+harness's (ASCII) label pool only; `driver_world_faithful`'s "no assumption about an external world is
+left" concerns the theorem, not the fidelity of `NatLex` to the crate. -/
+
+/-- with `--an` the statements are printed in the order of the model of `natural_lexical_cmp`: a
+permutation of the names, sorted; for pairwise different names strictly sorted (so it is the unique
+sorted permutation) -/
+theorem an_prints_in_natural_lexical_order (ns : List ParserM.Label) :
+    (CliMP.sortedNames CliM.drvWorld.anSort .an ns).Perm ns ∧
+    (CliMP.sortedNames CliM.drvWorld.anSort .an ns).Pairwise (fun a b => CliM.NatLex.le a b = true) ∧
+    (ns.Nodup → (CliMP.sortedNames CliM.drvWorld.anSort .an ns).Pairwise
+      (fun a b => CliM.NatLex.le a b = true ∧ CliM.NatLex.le b a = false)) :=
+  ⟨(CliM.NatLex.anSort_sorted_all ns).1, (CliM.NatLex.anSort_sorted_all ns).2, CliM.NatLex.anSort_strict ns⟩
+
+/-- the comparison is total and transitive (all labels) -/
+theorem natural_lexical_le_total_trans :
+    (∀ a b : ParserM.Label, CliM.NatLex.le a b = true ∨ CliM.NatLex.le b a = true) ∧
+    (∀ a b c : ParserM.Label, CliM.NatLex.le a b = true → CliM.NatLex.le b c = true → CliM.NatLex.le a c = true) :=
+  ⟨CliM.NatLex.le_total, CliM.NatLex.le_trans⟩
+
+/-- natural order differs from byte order: `a2 < a9 < a10`, `2 < 02` (shorter digit run first), case folded -/
+example : CliMP.sortedNames CliM.drvWorld.anSort .an
+      [['a','1','0'], ['a','9'], ['a','2'], ['B'], ['0','2'], ['2']]
+    = [['2'], ['0','2'], ['a','2'], ['a','9'], ['a','1','0'], ['B']] := by decide
+
+/-! ### recorded exceptions and exclusions
+
+* `--stmrew` with TWO CONDITIONS FOR ONE STATEMENT: hypothesis `hone` of `cli_text_faithful`. It is
+  not a proof artefact: the prepared rewriting conjoins one equivalence per WRITTEN condition, so on
+  `s(a).ac(a,c(f)).ac(a,c(v)).` the biodivine arm and the hybrid arm print NO stable model with
+  `--stmrew` although `T(a)` is one (`--stm`, `--stmrew2` print it; observed on the binary too).
+  Kernel-checked: `C03.prepared_rewriting_duplicate_counterexample`, restated below.
+* labels with one of `! & | ^ = < > ( ) ? :`: `library_arms_panic_on_special_labels`.
+* rejection branches of `runText`: since review 2 the harness hands the malformed TEXT of every `clibad`
+  request to the driver (`clibadrun`), which answers with `CliM.runText` on it; `rejects_malformed_text`
+  is thereby executed against the binary (before: the constant answer `rejected`).
+* NOT modelled: `--import`, `--export` (naive arm; an uncreatable export path exits with 101 AFTER the
+  sections were printed), `--counter` beyond `counter_adds_at_most_one_line`, a quoted label containing a
+  line break (one interpretation then spans two physical lines; `stdout : List (List Char)` has one
+  entry per `writeln!`, not per physical line), `RUST_LOG` output on stderr. -/
+
+/-- the `--stmrew` exception, visible here: with two conditions for one statement the prepared rewriting
+has no candidate and the stable model `T` is lost; `--stm` and `--stmrew2` find it -/
+theorem stmrew_loses_model_on_duplicate_condition :
+    let L := Bio.ttLib 1
+    let ac := Bio.acOf L 1 [0, 0] [.const false, .const true]
+    (Bio.bioStable L ac).map Bio.toI3 = [[some true]] ∧
+    (Bio.bioStableRep L none ac).map Bio.toI3 = [[some true]] ∧
+    Bio.bioStableRep L (some (Bio.stmRewriting L [0, 0] [.const false, .const true])) ac = [] :=
+  C03.prepared_rewriting_duplicate_counterexample
+
+-- the same on the text-level model, all the way from the text: `s(a).ac(a,c(f)).ac(a,c(v)).`
+#guard (CliM.runText CliM.drvWorld 10 ⟨.hybrid, { stm := true }, .none, .simple⟩ "s(a).ac(a,c(f)).ac(a,c(v)).".toList).stdout.map String.ofList == ["T(a) "]
+#guard (CliM.runText CliM.drvWorld 10 ⟨.hybrid, { stmrew := true }, .none, .simple⟩ "s(a).ac(a,c(f)).ac(a,c(v)).".toList).stdout == []
+#guard (CliM.runText CliM.drvWorld 10 ⟨.biodivine, { stmrew := true }, .none, .simple⟩ "s(a).ac(a,c(f)).ac(a,c(v)).".toList).stdout == []
+
 end C15
+#print axioms C15.hybrid_arm_runs_the_verified_bridge
+#print axioms C15.hybrid_arm_rewriting_section
+#print axioms C15.fuel_monotone
+#print axioms C15.halted_from_some_bound_on
+#print axioms C15.cli_text_faithful_every_large_bound
+#print axioms C15.store_world_faithful
+#print axioms C15.an_prints_in_natural_lexical_order
 #print axioms C15.cli_text_faithful
 #print axioms C15.three_modes_print_same_sets
 #print axioms C15.rejects_malformed_text
